@@ -394,11 +394,20 @@ ROOT_CAUSES = [
 ]
 
 
+_KNOWN = None
+
+
 def known_root_causes():
-    import os
-    known = set(common.known_sigs(PID))
-    known.update(x for x in os.environ.get('VP_C16_ASSUME_KNOWN', '').split(',') if x)
-    return [(root, trig) for root, trig in ROOT_CAUSES if root in known]
+    """Root causes listed as status=known in known_findings.json (read once per process): operations that trigger
+    them are skipped and counted, so the search continues behind a known finding; the committed replay file of the
+    finding still reproduces it on every run.  VP_C16_ASSUME_KNOWN=<sig>[,<sig>] does the same for development."""
+    global _KNOWN
+    if _KNOWN is None:
+        import os
+        known = set(common.known_sigs(PID))
+        known.update(x for x in os.environ.get('VP_C16_ASSUME_KNOWN', '').split(',') if x)
+        _KNOWN = [(root, trig) for root, trig in ROOT_CAUSES if root in known]
+    return _KNOWN
 
 
 class Stop(Exception):
@@ -1200,7 +1209,8 @@ def histories(draw, max_ops=40):
     init = {'DD': draw(st.lists(st.tuples(ident, valid).map(list), max_size=4))}
     if draw(st.booleans()):
         init['DD'].append([draw(st.sampled_from(['l', 'l', 'a', 'k'])), draw(st.sampled_from([v for v in VALID_POOL if 'L' in v]))])
-    return {'init': init, 'ops': draw(st.lists(operations(), min_size=min(8, max_ops), max_size=max_ops))}
+    least = min(max_ops, draw(st.sampled_from([1, 8, 8, 16, 24])))       # long histories, yet shrinkable to one operation
+    return {'init': init, 'ops': draw(st.lists(operations(), min_size=least, max_size=max_ops))}
 
 
 # ------------------------------------------------------------------------------------------------
